@@ -5,10 +5,11 @@
 use fbh::gal::*;
 use fbh::mapmodel::*;
 use fbh::prng::Rng;
-use fbh::report::{guarded, Report};
+use fbh::report::{crumb, guarded, Report};
 use fbh::Ctx;
 use quill::tree::mappings::{JavadocMapping, Mappings, ParameterKey};
 use quill::tree::mappings_diff::{Action, ClassNowodeDiff, FieldNowodeDiff, MappingsDiff, MethodNowodeDiff, ParameterNowodeDiff};
+use quill::tree::{NodeInfo, NodeJavadocInfo};
 use duke::tree::field::FieldNameAndDesc;
 use duke::tree::method::MethodNameAndDesc;
 use std::collections::{BTreeMap, BTreeSet};
@@ -58,21 +59,34 @@ fn act_from<T>(a: &Action<T>, f: impl Fn(&T) -> S) -> Act {
 	match a { Action::None => Act::None, Action::Add(b) => Act::Add(f(b)), Action::Remove(x) => Act::Rem(f(x)), Action::Edit(x, y) => Act::Edit(f(x), f(y)) }
 }
 
-/// Builds the quill diff by direct insertion into the public IndexMaps, in list order.
+/// Builds the quill diff through the public node API (NodeInfo::new / get_node_info(_mut) / NodeJavadocInfo::
+/// get_node_javadoc_info_mut) and insertion into the public IndexMaps, in list order.
 /// None when a key is duplicated or a comment / namespace string is not scalar-only.
 pub fn to_quill_diff(d: &DDiff) -> Option<MappingsDiff> {
-	let mut out = MappingsDiff { info: act_str(&d.info)?, classes: Default::default(), javadoc: act_doc(&d.doc)? };
+	let mut out = MappingsDiff::new(Action::None);
+	*out.get_node_info_mut() = act_str(&d.info)?;
+	*out.get_node_javadoc_info_mut() = act_doc(&d.doc)?;
 	for c in &d.classes {
-		let mut cn = ClassNowodeDiff { info: act_map(&c.info, class_name), fields: Default::default(), methods: Default::default(), javadoc: act_doc(&c.doc)? };
+		let mut cn = ClassNowodeDiff::new(Action::None);
+		*cn.get_node_info_mut() = act_map(&c.info, class_name);
+		*cn.get_node_javadoc_info_mut() = act_doc(&c.doc)?;
 		for f in &c.fields {
 			let key = FieldNameAndDesc { name: field_name(&f.name), desc: field_desc(&f.desc) };
-			if cn.fields.insert(key, FieldNowodeDiff { info: act_map(&f.info, field_name), javadoc: act_doc(&f.doc)? }).is_some() { return None; }
+			let mut fnode = FieldNowodeDiff::new(Action::None);
+			*fnode.get_node_info_mut() = act_map(&f.info, field_name);
+			*fnode.get_node_javadoc_info_mut() = act_doc(&f.doc)?;
+			if cn.fields.insert(key, fnode).is_some() { return None; }
 		}
 		for m in &c.methods {
 			let key = MethodNameAndDesc { name: method_name(&m.name), desc: method_desc(&m.desc) };
-			let mut mn = MethodNowodeDiff { info: act_map(&m.info, method_name), parameters: Default::default(), javadoc: act_doc(&m.doc)? };
+			let mut mn = MethodNowodeDiff::new(Action::None);
+			*mn.get_node_info_mut() = act_map(&m.info, method_name);
+			*mn.get_node_javadoc_info_mut() = act_doc(&m.doc)?;
 			for p in &m.params {
-				if mn.parameters.insert(ParameterKey { index: p.index as usize }, ParameterNowodeDiff { info: act_map(&p.info, param_name), javadoc: act_doc(&p.doc)? }).is_some() { return None; }
+				let mut pn = ParameterNowodeDiff::new(Action::None);
+				*pn.get_node_info_mut() = act_map(&p.info, param_name);
+				*pn.get_node_javadoc_info_mut() = act_doc(&p.doc)?;
+				if mn.parameters.insert(ParameterKey { index: p.index as usize }, pn).is_some() { return None; }
 			}
 			if cn.methods.insert(key, mn).is_some() { return None; }
 		}
@@ -80,16 +94,17 @@ pub fn to_quill_diff(d: &DDiff) -> Option<MappingsDiff> {
 	}
 	Some(out)
 }
+/// reads the diff back through the getters of the node API
 pub fn from_quill_diff(d: &MappingsDiff) -> DDiff {
 	let jd = |a: &Action<JavadocMapping>| act_from(a, |j| cps_str(&j.0));
 	DDiff {
-		info: act_from(&d.info, |s| cps_str(s)), doc: jd(&d.javadoc),
+		info: act_from(d.get_node_info(), |s| cps_str(s)), doc: jd(d.get_node_javadoc_info()),
 		classes: d.classes.iter().map(|(ck, c)| DClass {
-			name: cps(ck.as_inner()), info: act_from(&c.info, |n| cps(n.as_inner())), doc: jd(&c.javadoc),
-			fields: c.fields.iter().map(|(fk, f)| DField { name: cps(fk.name.as_inner()), desc: cps(fk.desc.as_inner()), info: act_from(&f.info, |n| cps(n.as_inner())), doc: jd(&f.javadoc) }).collect(),
+			name: cps(ck.as_inner()), info: act_from(c.get_node_info(), |n| cps(n.as_inner())), doc: jd(c.get_node_javadoc_info()),
+			fields: c.fields.iter().map(|(fk, f)| DField { name: cps(fk.name.as_inner()), desc: cps(fk.desc.as_inner()), info: act_from(f.get_node_info(), |n| cps(n.as_inner())), doc: jd(f.get_node_javadoc_info()) }).collect(),
 			methods: c.methods.iter().map(|(mk, m)| DMeth {
-				name: cps(mk.name.as_inner()), desc: cps(mk.desc.as_inner()), info: act_from(&m.info, |n| cps(n.as_inner())), doc: jd(&m.javadoc),
-				params: m.parameters.iter().map(|(pk, p)| DParam { index: pk.index as u64, info: act_from(&p.info, |n| cps(n.as_inner())), doc: jd(&p.javadoc) }).collect(),
+				name: cps(mk.name.as_inner()), desc: cps(mk.desc.as_inner()), info: act_from(m.get_node_info(), |n| cps(n.as_inner())), doc: jd(m.get_node_javadoc_info()),
+				params: m.parameters.iter().map(|(pk, p)| DParam { index: pk.index as u64, info: act_from(p.get_node_info(), |n| cps(n.as_inner())), doc: jd(p.get_node_javadoc_info()) }).collect(),
 			}).collect(),
 		}).collect(),
 	}
@@ -143,6 +158,7 @@ fn impl_apply_n<const N: usize>(d: &DDiff, t: &MMappings, ns: &S, desync: &mut V
 	let qd = to_quill_diff(d).ok_or("diff not representable")?;
 	let qt: Mappings<N, NsAny> = to_quill(t).map_err(|e| format!("target not representable: {e}"))?;
 	let nsname = s_string(ns).ok_or("namespace not scalar")?;
+	crumb(&format!("MappingsDiff::apply_to, target namespace {:?}\n{}target:\n{}", show(ns), show_diff(d), show_mappings(t)));
 	let r = guarded(move || qd.apply_to::<N, NsAny, NsAny>(qt, &nsname).ok())?;
 	Ok(r.map(|m| from_quill(&m, desync)))
 }
@@ -152,6 +168,7 @@ fn impl_apply(d: &DDiff, t: &MMappings, ns: &S, desync: &mut Vec<String>) -> Res
 fn impl_diff(a: &MMappings, b: &MMappings) -> Result<Option<DDiff>, String> {
 	let qa: Mappings<2, NsAny> = to_quill(a).map_err(|e| format!("a not representable: {e}"))?;
 	let qb: Mappings<2, NsAny> = to_quill(b).map_err(|e| format!("b not representable: {e}"))?;
+	crumb(&format!("MappingsDiff::diff\nA:\n{}B:\n{}", show_mappings(a), show_mappings(b)));
 	let r = guarded(move || MappingsDiff::diff(&qa, &qb).ok())?;
 	Ok(r.map(|d| from_quill_diff(&d)))
 }
@@ -161,6 +178,7 @@ impl Tmp {
 	/// tiny_v2_diff::read_file on the given bytes
 	fn read(&self, bytes: &[u8]) -> Result<Option<DDiff>, String> {
 		std::fs::write(&self.path, bytes).map_err(|e| e.to_string())?;
+		crumb(&format!("tiny_v2_diff::read_file on the {} bytes\n{}", bytes.len(), String::from_utf8_lossy(bytes).escape_debug()));
 		let p = self.path.clone();
 		let r = guarded(move || quill::tiny_v2_diff::read_file(&p).ok())?;
 		Ok(r.map(|d| from_quill_diff(&d)))
@@ -237,6 +255,12 @@ fn norm_with(d: &DDiff, ea: bool) -> DDiff {
 			params: m.params.iter().map(|p| DParam { index: p.index, info: na(&p.info), doc: na(&p.doc) }).collect() }).collect(),
 	}).collect() }
 }
+/// Action::is_diff of every action is false (= Gallina `noop_diff`)
+fn is_noop(d: &DDiff) -> bool {
+	let n = |a: &Act| match a { Act::None => true, Act::Edit(x, y) => x == y, _ => false };
+	n(&d.info) && n(&d.doc) && d.classes.iter().all(|c| n(&c.info) && n(&c.doc) && c.fields.iter().all(|f| n(&f.info) && n(&f.doc))
+		&& c.methods.iter().all(|m| n(&m.info) && n(&m.doc) && m.params.iter().all(|p| n(&p.info) && n(&p.doc))))
+}
 /// order-free equality of two results (Ok up to the order of every map, or both Err)
 fn same_res(x: &Option<MMappings>, y: &Option<MMappings>) -> bool { match (x, y) { (Some(x), Some(y)) => x.equiv(y), (None, None) => true, _ => false } }
 
@@ -307,6 +331,30 @@ pub fn ref_apply(d: &DDiff, t: &MMappings, tns: usize) -> Option<MMappings> {
 			Ok(c)
 		}).ok()?;
 	Some(MMappings { ns, doc, classes })
+}
+
+/// reference diff: "the difference of A and B", written directly (= the declarative diff_spec of coq/C04/Spec.v).
+/// Only called when every entry has a second-namespace name.
+fn ft(a: Option<S>, b: Option<S>) -> Act { match (a, b) { (None, None) => Act::None, (None, Some(b)) => Act::Add(b), (Some(a), None) => Act::Rem(a), (Some(a), Some(b)) => Act::Edit(a, b) } }
+fn ref_level<K: Ord + Clone, T, D>(a: &[T], b: &[T], key: &dyn Fn(&T) -> K, mk: &dyn Fn(&K, Option<&T>, Option<&T>) -> D) -> Vec<D> {
+	let am: BTreeMap<K, &T> = a.iter().map(|x| (key(x), x)).collect();
+	let bm: BTreeMap<K, &T> = b.iter().map(|x| (key(x), x)).collect();
+	let keys: BTreeSet<K> = am.keys().chain(bm.keys()).cloned().collect();
+	keys.iter().map(|k| mk(k, am.get(k).copied(), bm.get(k).copied())).collect()
+}
+pub fn ref_diff(a: &MMappings, b: &MMappings) -> DDiff {
+	fn nm<T>(o: Option<&T>, f: impl Fn(&T) -> &NamesRow) -> Option<S> { o.and_then(|x| f(x)[1].clone()) }
+	fn dc<T>(o: Option<&T>, f: impl Fn(&T) -> &Option<S>) -> Option<S> { o.and_then(|x| f(x).clone()) }
+	let none_p: Vec<MParam> = vec![]; let none_f: Vec<MField> = vec![]; let none_m: Vec<MMeth> = vec![];
+	DDiff { info: Act::None, doc: ft(a.doc.clone(), b.doc.clone()),
+		classes: ref_level(&a.classes, &b.classes, &|c: &MClass| c.names[0].clone().unwrap(), &|k, ca, cb| DClass {
+			name: k.clone(), info: ft(nm(ca, |c| &c.names), nm(cb, |c| &c.names)), doc: ft(dc(ca, |c| &c.doc), dc(cb, |c| &c.doc)),
+			fields: ref_level(ca.map_or(&none_f, |c| &c.fields), cb.map_or(&none_f, |c| &c.fields), &|f: &MField| (f.names[0].clone().unwrap(), f.desc.clone()), &|k, fa, fb| DField {
+				name: k.0.clone(), desc: k.1.clone(), info: ft(nm(fa, |f| &f.names), nm(fb, |f| &f.names)), doc: ft(dc(fa, |f| &f.doc), dc(fb, |f| &f.doc)) }),
+			methods: ref_level(ca.map_or(&none_m, |c| &c.methods), cb.map_or(&none_m, |c| &c.methods), &|m: &MMeth| (m.names[0].clone().unwrap(), m.desc.clone()), &|k, ma, mb| DMeth {
+				name: k.0.clone(), desc: k.1.clone(), info: ft(nm(ma, |m| &m.names), nm(mb, |m| &m.names)), doc: ft(dc(ma, |m| &m.doc), dc(mb, |m| &m.doc)),
+				params: ref_level(ma.map_or(&none_p, |m| &m.params), mb.map_or(&none_p, |m| &m.params), &|p: &MParam| p.index, &|k, pa, pb| DParam {
+					index: *k, info: ft(nm(pa, |p| &p.names), nm(pb, |p| &p.names)), doc: ft(dc(pa, |p| &p.doc), dc(pb, |p| &p.doc)) }) }) }) }
 }
 
 // ---------- predicates of the theorems' hypotheses ----------
@@ -532,16 +580,21 @@ impl<'a> Run<'a> {
 			}
 			None => { self.r.count("apply_unknown_namespace"); if got.is_some() { self.r.violation("apply_to succeeded for a namespace the target does not have".into(), format!("{}{}", show_diff(d), show_mappings(t))); } }
 		}
+		// C04_noop_identity: a diff whose every action is None or Edit(x,x) returns the target itself, entry for entry, same order
+		if is_noop(d) {
+			self.r.count("apply_noop_diff");
+			if let Some(g) = &got { if g != t { self.r.violation("a diff without any effective action (every action None or Edit(x,x)) changed the target or its order".into(), format!("stream {stream}\n{}target:\n{}apply_to returned:\n{}", show_diff(d), show_mappings(t), show_mappings(g))); } }
+		}
 		if emit { self.r.case(stream, format!("CApply {} {} {} {}", g_diff(d), g_mappings(t), gstr(nsname), gres(got.as_ref().map(g_mappings)))); }
 		got
 	}
 
 	/// pair (A,B): diff, apply, and the same through the text form
-	fn pair_case(&mut self, stream: &str, a: &MMappings, b: &MMappings, emit: bool) {
+	fn pair_case(&mut self, stream: &str, a: &MMappings, b: &MMappings, emit: bool) -> Option<MMappings> {
 		let replay = |extra: &str| format!("stream {stream}\nA:\n{}B:\n{}{extra}", show_mappings(a), show_mappings(b));
 		let d = match impl_diff(a, b) {
 			Ok(d) => d,
-			Err(p) => { self.r.violation(format!("diff panicked or input not representable: {p}"), replay("")); return; }
+			Err(p) => { self.r.violation(format!("diff panicked or input not representable: {p}"), replay("")); return None; }
 		};
 		self.r.eval(&format!("P{}|{}", g_mappings(a), g_mappings(b)), d.is_some() && a.size() + b.size() > 0);
 		let gd = gres(d.as_ref().map(g_diff));
@@ -556,20 +609,26 @@ impl<'a> Run<'a> {
 		if h_txt_top && !h_txt && !h_f3 && !h_f4 { self.r.count("pair_in_hypotheses_of_text_theorem_modulo_top_comment"); }
 		if h_inv && !h_f3 { self.r.count("pair_in_hypotheses_of_inverse_theorem"); }
 		if h_txt && !h_f3 && !h_f4 { self.r.count("pair_in_hypotheses_of_text_theorem"); }
-		let emit_pair = |r: &mut Report, rr: Option<&Option<MMappings>>| {
-			if emit { r.case(stream, format!("CPair {} {} {} {} {} {}", g_mappings(a), g_mappings(b), gd, gstr(&a.ns[1]), gopt(rr.map(|x| gres(x.as_ref().map(g_mappings)))), ghy)); }
+		let emit_pair = |r: &mut Report, rm: Option<&Option<MMappings>>, rr: Option<&Option<MMappings>>| {
+			let gr = |x: Option<&Option<MMappings>>| gopt(x.map(|x| gres(x.as_ref().map(g_mappings))));
+			if emit { r.case(stream, format!("CPair {} {} {} {} {} {} {}", g_mappings(a), g_mappings(b), gd, gstr(&a.ns[1]), gr(rm), gr(rr), ghy)); }
 		};
 		// diff fails exactly when the namespaces differ or a second-namespace name is missing
 		let should = a.ns == b.ns && named(a) && named(b);
 		if d.is_some() != should {
 			self.r.violation(format!("diff returned {} but namespaces equal = {}, all entries named in A = {}, in B = {}", if d.is_some() { "Ok" } else { "Err" }, a.ns == b.ns, named(a), named(b)), replay(""));
 		}
-		let Some(d) = d else { self.r.count("diff_err"); emit_pair(self.r, None); return; };
+		let Some(d) = d else { self.r.count("diff_err"); emit_pair(self.r, None, None); return None; };
 		self.r.count("diff_ok");
+		// C04_diff_exact says what the model's diff contains (the union of the keys at every level, Edit on both sides, Remove / Add
+		// on one). The property itself does not prescribe the content of a diff - only that applying it to A gives B - so a
+		// different but equally effective diff is NOT a violation: the comparison with the independent reference is counted
+		// (and any difference shows up as a model / implementation disagreement in CPair), the inverse law below is the judge.
+		if should { self.r.count(if ref_diff(a, b).canon() == d.canon() { "diff_equals_reference_difference" } else { "diff_differs_from_reference_difference" }); }
 		let nsname = a.ns[1].clone();
-		if a.ns[0] == a.ns[1] { self.r.count("pair_duplicate_namespace_names"); emit_pair(self.r, None); return; }
+		if a.ns[0] == a.ns[1] { self.r.count("pair_duplicate_namespace_names"); emit_pair(self.r, None, None); return None; }
 		let mut desync = vec![];
-		let got = match impl_apply(&d, a, &nsname, &mut desync) { Ok(g) => g, Err(p) => { self.r.violation(format!("apply_to panicked: {p}"), replay(&show_diff(&d))); emit_pair(self.r, None); return; } };
+		let got = match impl_apply(&d, a, &nsname, &mut desync) { Ok(g) => g, Err(p) => { self.r.violation(format!("apply_to panicked: {p}"), replay(&show_diff(&d))); emit_pair(self.r, None, None); return None; } };
 		let ok = got.as_ref().is_some_and(|g| g.equiv(b));
 		if ok { self.r.count("inverse_ok"); } else {
 			let f3 = h_f3 && got.as_ref().is_some_and(|g| g.equiv(&f3_expected(a, b)));
@@ -583,19 +642,19 @@ impl<'a> Run<'a> {
 		let top_changes = match &d.doc { Act::None => false, Act::Edit(x, y) => x != y, _ => true };
 		if top_changes { self.r.count("pair_top_comment_differs_text_carries_the_rest"); }
 		let txt = print_tinydiff(&d);
-		let Some(bytes) = utf8(&txt) else { emit_pair(self.r, None); return; };
-		let d2 = match self.tmp.read(&bytes) { Ok(x) => x, Err(p) => { self.r.violation(format!("tiny_v2_diff::read_file panicked: {p}"), replay(&format!("text:\n{}", show(&txt)))); emit_pair(self.r, None); return; } };
+		let Some(bytes) = utf8(&txt) else { emit_pair(self.r, Some(&got), None); return None; };
+		let d2 = match self.tmp.read(&bytes) { Ok(x) => x, Err(p) => { self.r.violation(format!("tiny_v2_diff::read_file panicked: {p}"), replay(&format!("text:\n{}", show(&txt)))); emit_pair(self.r, Some(&got), None); return None; } };
 		let mut nd = norm(&d); nd.doc = Act::None;
 		// the property is about the content of the diff, not the order of its entries: compared order-free
 		// (the exact order is compared in the correspondence, CRead / CPair)
 		if d2.as_ref().map(|x| x.canon()) != Some(nd.canon()) {
 			self.r.violation("reading the printed diff does not give back the diff (up to Edit(a,a) = None, empty = absent)".into(), replay(&format!("diff:\n{}text:\n{}\nread back:\n{}", show_diff(&d), show(&txt), d2.as_ref().map(show_diff).unwrap_or("Err\n".into()))));
-			emit_pair(self.r, None);
-			return;
+			emit_pair(self.r, Some(&got), None);
+			return got;
 		}
 		let d2 = d2.unwrap();
 		let mut desync = vec![];
-		let got2 = match impl_apply(&d2, a, &nsname, &mut desync) { Ok(g) => g, Err(p) => { self.r.violation(format!("apply_to panicked: {p}"), replay(&show_diff(&d2))); emit_pair(self.r, None); return; } };
+		let got2 = match impl_apply(&d2, a, &nsname, &mut desync) { Ok(g) => g, Err(p) => { self.r.violation(format!("apply_to panicked: {p}"), replay(&show_diff(&d2))); emit_pair(self.r, Some(&got), None); return None; } };
 		let want2 = got.clone().map(|mut g| { if top_changes { g.doc = a.doc.clone(); } g });
 		if same_res(&want2, &got2) { self.r.count(if top_changes { "text_inverse_ok_except_top_comment" } else { "text_inverse_ok" }); } else {
 			// F4, as narrow as the defect: (i) A or B has an empty comment (f4_class), (ii) the empty = absent rule of the
@@ -609,7 +668,8 @@ impl<'a> Run<'a> {
 				self.r.violation("applying the diff read back from its text form differs from applying the diff itself".into(), replay(&format!("diff:\n{}text:\n{}\ndirect{}:\n{}through text:\n{}", show_diff(&d), show(&txt), if top_changes { " (the top-level comment cannot travel: expected A's)" } else { "" }, sh_res(&want2), sh_res(&got2))));
 			}
 		}
-		emit_pair(self.r, Some(&got2));
+		emit_pair(self.r, Some(&got), Some(&got2));
+		got
 	}
 
 	/// text -> read_file
@@ -707,7 +767,7 @@ pub fn run(ctx: &Ctx) -> anyhow::Result<Report> {
 	let mut r = Report::new("C04", "C04.Run");
 	r.shard_size = 200;
 	let mut rng = Rng::new(ctx.seed);
-	r.rule = "table: every combination of the 4 actions x target entry {absent, present without name, present with the stated old name, present with another name} at class/field/method/parameter level and the 4 actions x comment {absent, stated old value, other value} at mappings/class/field/method/parameter level on a single-entry tree, each also below an added and below a removed parent; pairs: (A,B) derived from a generated two-namespace ancestor by independent random edits (drop, rename, comment change incl. the comment of the mapping set itself, add at every level - also the same new key on both sides with different names/comments) so that only-A / only-B / both-equal / both-different entries occur at every level; comments and second-namespace names are drawn from pools that contain white-space-only values (space, two spaces, NBSP, EM SPACE, IDEOGRAPHIC SPACE, FF, NEL, LINE SEPARATOR) and values with leading / trailing / inner blanks; pair-blank: single-entry pairs with absent / empty / blank / blank-edged comment (five levels) or name (four levels) on either side, text-blank: single-entry diffs with such old / new values in every comment and name action through print / read_file; with separate streams violating each hypothesis (absent second-namespace names, first-namespace parameter names, empty comments, differing namespaces); arbitrary: random diffs aimed at a generated target (1, 2, 3 and 4 namespaces, every target namespace incl. the first and an unknown one), consistent or with injected faults; text: printed diffs, the repository's four .tinydiff fixtures, and mutations of both. Oracle on the implementation: apply(diff(A,B),A) equivalent to B, also through print/read_file; result of apply_to equals an independent map-based reference and Err exactly when the reference finds an inconsistency; diff is Err exactly when a needed name is absent; read_file(print(d)) = norm(d). Every oracle comparison is up to the order of every map (results and diffs are canonicalised); the exact IndexMap order is compared only in the correspondence (CApply / CPair / CRead), where the model follows the code's swap_remove. A pair whose top-level comments differ also goes through the text form: everything but that comment must arrive (the format has no line for it). Non-trivial: the call returned Ok on a non-empty tree; distinct by the full input. For every pair the harness also evaluates the theorems' hypotheses (inverse_hyps_b, f3_class, text_hyps_b, f4_class, text_hyps_top_b) and Coq evaluates the Gallina booleans on the same pair (part of CPair); inside the hypotheses a failing oracle is always a violation, the known-finding classifiers apply only when f3_class / f4_class is true.".into();
+	r.rule = "table: every combination of the 4 actions x target entry {absent, present without name, present with the stated old name, present with another name} at class/field/method/parameter level and the 4 actions x comment {absent, stated old value, other value} at mappings/class/field/method/parameter level on a single-entry tree, each also below an added and below a removed parent; pairs: (A,B) derived from a generated two-namespace ancestor by independent random edits (drop, rename, comment change incl. the comment of the mapping set itself, add at every level - also the same new key on both sides with different names/comments) so that only-A / only-B / both-equal / both-different entries occur at every level; pair-chain: for a third of them the way back diff(R,A) from the tree R = apply(diff(A,B),A) as apply_to returned it (its own entry order); comments and second-namespace names are drawn from pools that contain white-space-only values (space, two spaces, NBSP, EM SPACE, IDEOGRAPHIC SPACE, FF, NEL, LINE SEPARATOR) and values with leading / trailing / inner blanks; pair-blank: single-entry pairs with absent / empty / blank / blank-edged comment (five levels) or name (four levels) on either side, text-blank: single-entry diffs with such old / new values in every comment and name action through print / read_file; with separate streams violating each hypothesis (absent second-namespace names, first-namespace parameter names, empty comments, differing namespaces); arbitrary: random diffs aimed at a generated target (1, 2, 3 and 4 namespaces, every target namespace incl. the first and an unknown one), consistent or with injected faults; text: printed diffs, the repository's four .tinydiff fixtures, and mutations of both; holder: exhaustively on the single-path tree (class C / field f / method m / parameter 0) every class entry {None, Edit(x,x); thorough: Edit, Remove, Add} x class {absent, present} x field entry {none, Add, None} x method entry {none, Add, None, Edit(x,x)} x parameter entry {none, Add, None} x class comment {None, Add} x every combination of the targets below an existing class {field, method, parameter present / absent}; action: the helpers of Action (is_diff, as_ref, to_tuple, from_tuple, flip) on None / Add / Remove / Edit over empty, blank, equal and different values, with flip undoing apply_diff_option on every target it applies to; sizes: a class with 300 fields and a method with 300 parameters against diffs touching every second entry in shuffled order, names and comments longer than 32 KiB through diff / apply / print / read_file, parameter indices 255 / 256 / 65535 / 65536 / 2^32 / usize::MAX; not-utf8: files with an invalid byte sequence on the header line or on a line at every depth (read_file must answer Err, never panic). pair-path: exhaustively on the single-path tree, per level what differs between A and B (class same / renamed / comment changed / only in A / only in B; field, method, parameter additionally absent on both sides) in every combination - in particular unchanged holders above changed, added or removed children. Oracle on the implementation: (counted, not judged: diff(A,B) equals the independently computed difference - union of keys at every level, Edit on both sides, Remove / Add on one side, comment old -> new; = C04_diff_exact); apply(diff(A,B),A) equivalent to B, also through print/read_file; result of apply_to equals an independent map-based reference and Err exactly when the reference finds an inconsistency; a diff whose every action is None or Edit(x,x) returns the target itself, same order (C04_noop_identity); diff is Err exactly when a needed name is absent; read_file(print(d)) = norm(d). Every oracle comparison is up to the order of every map (results and diffs are canonicalised); the exact IndexMap order is compared only in the correspondence (CApply / CPair / CRead), where the model follows the code's swap_remove. A pair whose top-level comments differ also goes through the text form: everything but that comment must arrive (the format has no line for it). Non-trivial: the call returned Ok on a non-empty tree; distinct by the full input. For every pair the harness also evaluates the theorems' hypotheses (inverse_hyps_b, f3_class, text_hyps_b, f4_class, text_hyps_top_b) and Coq evaluates the Gallina booleans on the same pair (part of CPair); for a pair inside the hypotheses of the inverse theorems Coq also judges what the implementation answered - apply(diff(A,B),A) and the same through the text - with Quill.Mappings.equivb (result_is: well-formed and equal to B up to the order of every map; C04_result_is / C04_equivb_iff_mequiv); inside the hypotheses a failing oracle is always a violation, the known-finding classifiers apply only when f3_class / f4_class is true.".into();
 	r.notes.push("F3 classifier: apply(diff(A,B),A) equals B with every parameter's first-namespace name replaced by A's at the same path (or absent), and B is not of that form; F4 classifier: A or B has an empty comment, the diff read back equals norm(diff), the empty = absent rule (not merely Edit(a,a) = None) changed a comment action of this diff below the top level, and the through-text result is exactly the reference application of the diff that was read back; anything else on that stream is a violation".into());
 	r.notes.push("the comment of the mapping set itself has no line in the .tinydiff format (tiny_v2_diff::read returns javadoc = None always: C04_read_no_top): pairs with different top-level comments are covered in memory (inverse law, incl. seed class 'diff drops the top-level comment action') and, through the text, up to that comment (C04_text_inverse_modulo_top; necessity of equal top-level comments: C04_text_inverse_needs_same_top)".into());
 	{
@@ -805,6 +865,81 @@ pub fn run(ctx: &Ctx) -> anyhow::Result<Report> {
 		run.pair_case("namespace", &dup, &b, true);
 	}
 
+	// 1a. holder nodes, exhaustively on the single-path tree (class C, field f, method m, parameter 0): a class / method /
+	// field / parameter entry that carries no name change (None, or the Edit(x,x) that diff() emits) x its target {absent,
+	// present} x what hangs below it {nothing, additions, further holders, comment additions} x whether those targets exist.
+	// C04_absent_non_add_refused: a non-addition whose key the target lacks refuses the whole application, whatever is below.
+	{
+		let add = |s: &str| Act::Add(cps_str(s));
+		let mut cacts = vec![Act::None, Act::Edit(cps_str("pc"), cps_str("pc"))];
+		if ctx.thorough { cacts.extend([Act::Edit(cps_str("pc"), cps_str("q")), Act::Rem(cps_str("pc")), add("n")]); }
+		let fopts: Vec<Option<Act>> = vec![None, Some(add("fn")), Some(Act::None)];
+		let mopts: Vec<Option<Act>> = vec![None, Some(add("mn")), Some(Act::None), Some(Act::Edit(cps_str("pm"), cps_str("pm")))];
+		let popts: Vec<Option<Act>> = vec![None, Some(add("pn")), Some(Act::None)];
+		let mdocs: Vec<Act> = if ctx.thorough { vec![Act::None, add("method doc")] } else { vec![Act::None] };
+		let mut n = 0u64;
+		for cact in &cacts {
+			for cpresent in [false, true] {
+				for fopt in &fopts { for mopt in &mopts { for popt in &popts {
+					if mopt.is_none() && popt.is_some() { continue; }
+					for cdoc in [Act::None, add("class doc")] { for mdoc in &mdocs {
+						if mopt.is_none() && *mdoc != Act::None { continue; }
+						let d = one_entry_diff([Some(cact.clone()), fopt.clone(), mopt.clone(), popt.clone()], [Act::None, cdoc.clone(), Act::None, mdoc.clone(), Act::None]);
+						// the targets below the class exist or not (only when the class itself exists)
+						let below: Vec<(bool, bool, bool)> = if cpresent { vec![(false, false, false), (true, false, false), (false, true, false), (true, true, false), (false, true, true), (true, true, true)] } else { vec![(false, false, false)] };
+						for (fp, mp, pp) in below {
+							let st = |p: bool, nm: &'static str| if p { Some(Some(nm)) } else { None };
+							let t = one_entry_target(st(cpresent, "pc"), st(fp, "pf"), st(mp, "pm"), st(pp, "pp"), [None; 5]);
+							run.apply_case("holder", &d, &t, &named_ns, true);
+							n += 1;
+						}
+					} }
+				} } }
+			}
+		}
+		run.r.count_n("holder_cases", n);
+	}
+
+	// 1a'. the Action helpers of mappings_diff/action.rs: is_diff (also through as_ref), to_tuple / from_tuple, flip.
+	// Oracle on the implementation: from_tuple(to_tuple a) = a, flip(flip a) = a, flip swaps the tuple, a no-op (is_diff = false)
+	// leaves every target it applies to unchanged, and flip undoes apply_diff_option (C04_apply_option_flip / _noop).
+	{
+		let vals: Vec<S> = ["", " ", "a", "b", "x\u{1F600}"].iter().map(|s| cps_str(s)).collect();
+		let mut acts = vec![Act::None];
+		for v in &vals { acts.push(Act::Add(v.clone())); acts.push(Act::Rem(v.clone())); for w in &vals { acts.push(Act::Edit(v.clone(), w.clone())); } }
+		let targets: Vec<Option<S>> = std::iter::once(None).chain(vals.iter().cloned().map(Some)).collect();
+		for a in &acts {
+			let qa = act_str(a).unwrap();
+			let qa2 = qa.clone();
+			let got = guarded(move || (qa2.is_diff(), qa2.as_ref().is_diff(), qa2.clone().to_tuple(), qa2.clone().flip(), Action::from(qa2.clone().to_tuple()), qa2.clone().flip().flip(), <(Option<String>, Option<String>)>::from(qa2.clone().flip())));
+			let (isd, isd_ref, tup, fl, ft_, ffl, fl_tup) = match got { Ok(x) => x, Err(p) => { run.r.violation(format!("an Action helper panicked: {p}"), sh_act(a)); continue; } };
+			let back = |x: &Action<String>| act_from(x, |s| cps_str(s));
+			let os = |o: &Option<String>| o.as_ref().map(|s| cps_str(s));
+			if back(&ft_) != *a { run.r.violation("Action::from_tuple(to_tuple(a)) is not a".into(), sh_act(a)); }
+			if back(&ffl) != *a { run.r.violation("Action::flip(flip(a)) is not a".into(), sh_act(a)); }
+			if (fl_tup.0.clone(), fl_tup.1.clone()) != (tup.1.clone(), tup.0.clone()) { run.r.violation("Action::flip does not swap old and new value".into(), sh_act(a)); }
+			if isd != isd_ref { run.r.violation("Action::is_diff differs between a and a.as_ref()".into(), sh_act(a)); }
+			let want_isd = match a { Act::None => false, Act::Edit(x, y) => x != y, _ => true };
+			if isd != want_isd { run.r.violation("Action::is_diff is not 'old and new value differ'".into(), sh_act(a)); }
+			for t in &targets {
+				let (q1, qt) = (qa.clone(), t.as_ref().map(|s| s_string(s).unwrap()));
+				let Ok(r) = guarded(move || quill::apply_diff_option(&q1, qt).ok()) else { continue };
+				let Some(r) = r else { continue };
+				let rs = r.as_ref().map(|s| cps_str(s));
+				if !isd && rs != *t { run.r.violation("an action that is no diff (Action::is_diff = false) changed the value it was applied to".into(), format!("{} on {}", sh_act(a), sh_opt(t))); }
+				if isd && *a != ft(t.clone(), rs.clone()) { run.r.violation("an applied action is not the action between the old and the new value".into(), format!("{} on {}", sh_act(a), sh_opt(t))); }
+				let q2 = fl.clone();
+				let undone = guarded(move || quill::apply_diff_option(&q2, r).ok());
+				if undone.as_ref().ok().and_then(|x| x.as_ref()).map(|o| o.as_ref().map(|s| cps_str(s))) != Some(t.clone()) {
+					run.r.violation("applying the flipped action to the result does not give the original value back".into(), format!("{} on {}", sh_act(a), sh_opt(t)));
+				}
+				run.r.count("action_flip_roundtrips");
+			}
+			run.r.eval_distinct(true);
+			run.r.case("action", format!("CAct {} {} {} ({}, {}) {} {}", g_act(a), gbool(isd), gbool(isd_ref), gopt(os(&tup.0).map(|s| gstr(&s))), gopt(os(&tup.1).map(|s| gstr(&s))), g_act(&back(&fl)), g_act(&back(&ft_))));
+		}
+	}
+
 	// the witnesses of the known findings (the same values as f3_A/f3_B and f4_A/f4_B in coq/C04), every run
 	{
 		let ns = vec![cps_str("o"), cps_str("n")];
@@ -882,6 +1017,82 @@ pub fn run(ctx: &Ctx) -> anyhow::Result<Report> {
 		run.r.count_n("blank_text_diffs", n);
 	}
 
+	// 1c. sizes: maps beyond 255 / 256 entries (swap_remove order on long pending lists), strings beyond 32 KiB, boundary indices
+	{
+		let ns = vec![cps_str("official"), cps_str("named")];
+		let nfield = 300usize;
+		let mut fields: Vec<MField> = (0..nfield).map(|i| MField { desc: cps_str(if i % 3 == 0 { "I" } else { "J" }), names: vec![Some(cps_str(&format!("f{i}"))), Some(cps_str(&format!("field{i}")))], doc: if i % 7 == 0 { Some(cps_str("doc")) } else { None } }).collect();
+		let mut params: Vec<MParam> = (0..nfield as u64).map(|i| MParam { index: i, names: vec![None, Some(cps_str(&format!("p{i}")))], doc: None }).collect();
+		let mut r2 = rng.fork(17);
+		r2.shuffle(&mut fields); r2.shuffle(&mut params);
+		let meth = MMeth { desc: cps_str("()V"), names: vec![Some(cps_str("m")), Some(cps_str("meth"))], doc: None, params };
+		let big = MMappings { ns: ns.clone(), doc: None, classes: vec![MClass { names: vec![Some(cps_str("big/C")), Some(cps_str("named/Big"))], doc: None, fields, methods: vec![meth] }] };
+		// B: every second field / parameter renamed, every fifth removed, a few added
+		let mut b = big.clone();
+		{
+			let c = &mut b.classes[0];
+			let mut i = 0; c.fields.retain(|_| { i += 1; i % 5 != 0 });
+			for (i, f) in c.fields.iter_mut().enumerate() { if i % 2 == 0 { f.names[1] = Some(cps_str(&format!("renamed{i}"))); } }
+			for i in 0..20 { c.fields.push(MField { desc: cps_str("Z"), names: vec![Some(cps_str(&format!("nf{i}"))), Some(cps_str(&format!("newField{i}")))], doc: None }); }
+			let m = &mut c.methods[0];
+			let mut i = 0; m.params.retain(|_| { i += 1; i % 5 != 0 });
+			for (i, p) in m.params.iter_mut().enumerate() { if i % 2 == 1 { p.names[1] = Some(cps_str(&format!("q{i}"))); } }
+			for i in [65535u64, 65536, 1 << 32, u64::MAX] /* 255 / 256 are among the 300 existing ones */ { if usize::try_from(i).is_ok() { m.params.push(MParam { index: i, names: vec![None, Some(cps_str(&format!("big{i}")))], doc: None }); } }
+			r2.shuffle(&mut c.fields); r2.shuffle(&mut m.params);
+		}
+		run.pair_case("sizes", &big, &b, true);
+		run.pair_case("sizes", &b, &big, ctx.thorough);   // quick: the way back is judged by the oracle only
+		// an arbitrary diff in another order than the target, touching every second entry
+		let mut d = gen_diff_for(&mut r2, &big, 1, 0);
+		run.apply_case("sizes", &d, &big, &named_ns, true);
+		d.classes.iter_mut().for_each(|c| c.fields.reverse());
+		run.apply_case("sizes", &d, &big, &named_ns, true);
+		// names and comments longer than 32 KiB / 64 KiB
+		// (the correspondence carries the 2000-character variant; the long ones are judged by the oracle on the implementation alone)
+		for len in [2000, 32 * 1024 + 1, 65 * 1024 + 7] {
+			let long_name: S = (0..len).map(|i| 'a' as u32 + (i % 26) as u32).collect();
+			let long_doc: S = (0..len).map(|i| if i % 97 == 0 { 10 } else if i % 89 == 0 { 92 } else { 0x4e00 + (i % 500) as u32 }).collect();
+			let a = one_entry_target(Some(Some("pc")), Some(Some("pf")), Some(Some("pm")), Some(Some("pp")), [None; 5]);
+			let mut b = a.clone();
+			b.classes[0].names[1] = Some(long_name.clone());
+			b.classes[0].methods[0].names[1] = Some(long_name.clone());
+			b.classes[0].methods[0].params[0].doc = Some(long_doc.clone());
+			b.classes[0].fields[0].doc = Some(long_doc.clone());
+			run.pair_case("sizes", &a, &b, len <= 2000);
+			run.pair_case("sizes", &b, &a, len <= 2000 && ctx.thorough);
+			run.r.count(&format!("sizes_string_length_{len}"));
+		}
+		run.r.count("sizes_stream");
+	}
+
+	// 1d. pair-path: exhaustively on the single-path tree, what differs between A and B at each level - in particular a node that is
+	// the same on both sides (same name, same comment) above children that changed, appeared or disappeared (C04_diff_exact: nothing
+	// is pruned; C04_diff_apply_partial quantifies over all such pairs)
+	{
+		#[derive(Clone, Copy, PartialEq)]
+		enum St { Absent, OnlyA, OnlyB, Same, Renamed, Doc }
+		use St::*;
+		let side = |st: St, is_b: bool, nm: &'static str, other: &'static str| -> (Option<Option<&'static str>>, Option<&'static str>) {
+			let present = match st { Absent => false, OnlyA => !is_b, OnlyB => is_b, _ => true };
+			if !present { return (None, None); }
+			(Some(Some(if is_b && st == Renamed { other } else { nm })), if is_b && st == Doc { Some("changed") } else { None })
+		};
+		let below = |parent: St| -> Vec<St> { match parent { Absent => vec![Absent], OnlyA => vec![Absent, OnlyA], OnlyB => vec![Absent, OnlyB], _ => vec![Absent, OnlyA, OnlyB, Same, Renamed, Doc] } };
+		let mut n = 0u64;
+		for cs in [Same, Renamed, Doc, OnlyA, OnlyB] {
+			for fs in below(cs) { for ms in below(cs) { for ps in below(ms) {
+				let build = |is_b: bool| {
+					let (c, cd) = side(cs, is_b, "pc", "qc"); let (f, fd) = side(fs, is_b, "pf", "qf");
+					let (m, md) = side(ms, is_b, "pm", "qm"); let (p, pd) = side(ps, is_b, "pp", "qp");
+					one_entry_target(c, f, m, p, [None, cd, fd, md, pd])
+				};
+				run.pair_case("pair-path", &build(false), &build(true), true);
+				n += 1;
+			} } }
+		}
+		run.r.count_n("path_pairs", n);
+	}
+
 	// 2. pairs (A,B)
 	let npairs = if ctx.thorough { 3000 } else { 260 };
 	let base_cfg = |mc: usize| { let mut g = GenCfg::new(2); g.max_classes = mc; g.absent_12 = 0; g };
@@ -923,7 +1134,9 @@ pub fn run(ctx: &Ctx) -> anyhow::Result<Report> {
 				if let Some(mb) = cb.methods.iter().find(key) { if !canc.is_some_and(|c| c.methods.iter().any(|f| key(&f))) { run.r.count(if mb == ma { "method_added_on_both_sides_equal" } else { "method_added_on_both_sides_different" }); } }
 			}
 		}
-		run.pair_case(stream, &a, &b, true);
+		let got = run.pair_case(stream, &a, &b, true);
+		// two steps: the way back, starting from what apply_to returned (its own IndexMap order, after the swap_remove effects)
+		if kind <= 5 && i % 3 == 0 { if let Some(r) = got { run.pair_case("pair-chain", &r, &a, true); } }
 	}
 
 	// 3. arbitrary diffs against arbitrary targets
@@ -998,6 +1211,35 @@ pub fn run(ctx: &Ctx) -> anyhow::Result<Report> {
 		texts.push(cps_str(t));
 	}
 	for t in texts.clone() { run.read_case("text-fixed", &t, true); }
+	// files that are not UTF-8: BufRead::lines yields an Err item, on the header line or (through WithMoreIdentIter::next)
+	// on a later line at every depth; read_file must answer Err, never panic, never a diff
+	{
+		let pre: [&[u8]; 5] = [b"", b"tiny\t2\t0\n", b"tiny\t2\t0\nc\ta\n", b"tiny\t2\t0\nc\ta\n\tm\t()V\tm\n", b"tiny\t2\t0\nc\ta\n\tm\t()V\tm\n\t\tp\t0\t\tx\n"];
+		let bad: [&[u8]; 6] = [b"\xff", b"\x80", b"\xc3", b"\xe2\x82", b"\xed\xa0\x80", b"\xf8\x88\x80\x80\x80"];
+		let mut n = 0u64;
+		for (depth, p) in pre.iter().enumerate() {
+			for b in bad {
+				for form in 0..4 {
+					let mut bytes = p.to_vec();
+					let ind = if depth == 0 { 0 } else { depth - 1 };
+					match form {
+						0 => { bytes.extend(std::iter::repeat(b'\t').take(ind)); bytes.extend(b); bytes.push(b'\n'); }                       // the whole line
+						1 => { bytes.extend(std::iter::repeat(b'\t').take(ind)); bytes.extend(b"c\tx"); bytes.extend(b); bytes.push(b'\n'); } // inside a cell
+						2 => { bytes.extend(std::iter::repeat(b'\t').take(ind + 1)); bytes.extend(b"c\t"); bytes.extend(b); }                 // a comment, no final newline
+						_ => { bytes.extend(b); bytes.extend(b"\nc\tb\n"); }                                                                 // more lines follow
+					}
+					match run.tmp.read(&bytes) {
+						Err(p) => run.r.violation(format!("tiny_v2_diff::read_file panicked on a file that is not UTF-8: {p}"), format!("bytes {:?}", bytes)),
+						Ok(Some(d)) => run.r.violation("tiny_v2_diff::read_file returned a diff for a file that is not UTF-8".into(), format!("bytes {:?}\n{}", bytes, show_diff(&d))),
+						Ok(None) => { run.r.count("read_not_utf8_err"); }
+					}
+					run.r.eval_distinct(false);
+					n += 1;
+				}
+			}
+		}
+		run.r.count_n("not_utf8_files", n);
+	}
 	let nmut = if ctx.thorough { 3000 } else { 260 };
 	for i in 0..nmut {
 		let mut g = GenCfg::new(2); g.max_classes = 2; g.absent_12 = 2;
